@@ -111,6 +111,19 @@ def cmd_check(a):
     if not env.TWIN:
         from crosshair.core import standalone_statespace
         from crosshair.tracers import NoTracing
+        # every concrete sample (boundary values included) first runs plainly: a sample that violates the postcondition is a counterexample in its
+        # own right (it is replayed like a solver model) — the symbolic search below does not depend on it, but code that makes the solver slow
+        # (bit tricks, C-level calls) must not hide a boundary defect behind an inconclusive verdict
+        for s in o.samples:
+            try:
+                r0 = o.fn(**dict(s))
+            except Exception:
+                r0 = True        # harness/engine exceptions are the business of the traced self-test and of the search
+            if r0 is False:
+                out["state"] = "POST_FAIL"; out["args"] = s; out["via"] = "concrete sample"
+                out["message"] = "a concrete sample of the obligation violates its postcondition"
+                out["paths"] = 0; out["queries"] = 0; out["solver_s"] = 0.0
+                _emit(out); return
         for s in o.samples[:3]:
             try:
                 env.OBS_ON = True; del env.OBS[:]
